@@ -195,7 +195,7 @@ def scanFull (lower : String → String) (isEditable : Chars → Bool) (root pfx
   let st := scanPhase2At root pfx excluded st
   let st := scanVenv lower isEditable pfx root st
   let roots := (st.cache.map (·.1)).filter st.isScanRoot
-  let (st, re) := importScan pfx (st.disk.length + 1) st roots [] []
+  let (st, re) := importScan pfx (importScanFuel st) st roots [] []
   let st := re.foldl (fun st m =>
     match st.content m with
     | some v => (analyze pfx true st m v).1
